@@ -1,7 +1,7 @@
 #!/bin/bash
 # usage: confirm_seed.sh <mutdir-name>   e.g. C03-1
 # Confirms in a fresh scratch worktree: demo passes without the patch, fails with it, suite passes with it.
-# Then applies the patch to /repo, runs every quick check, and restores /repo.
+# Then applies the patch to a scratch copy of /repo's sources and runs every quick check on the copy.
 set -u
 export GOFLAGS=-mod=mod GOPROXY=off GOSUMDB=off
 name=$1
@@ -25,13 +25,11 @@ rm "$wt/$sub/$dn"
 suite=$(unshare -n sh -c "ip link set lo up 2>/dev/null; /verif/scripts/baseline.sh $wt" | head -1)
 echo "without patch: $( [ $np -ge 1 ] && echo PASS || echo NOT-PASS ); with patch: $( [ $wp -ge 1 ] && echo FAIL-as-expected || echo NOT-FAILING ); suite with patch: $suite"
 git -C /repo worktree remove --force "$wt"
-# now the checks
-git -C /repo apply "$src/patch.diff" || { echo "cannot apply to /repo"; exit 2; }
+# now the checks, on a scratch copy of /repo's sources with the patch applied (/repo itself is not touched)
+scratch=$(mktemp -d /tmp/seed-run.XXXXXX)
+rsync -a --exclude .git /repo/ $scratch/src/
+mkdir -p $scratch/verif; cp /verif/known_findings.jsonl $scratch/verif/
+( cd $scratch/src && patch -p1 -s --no-backup-if-mismatch -i "$src/patch.diff" ) || { echo "cannot apply to the scratch copy"; rm -rf $scratch; exit 2; }
 cd /verif
-for p in C01 C02 C03 C04 C05 C06 C07 C08 C09 C10 C11 C12 C13 C14 C15 C16 C17 C18 C19 C20; do
-  out=$(./bin/xcheck -prop $p -verif /tmp/mut/scratch-verif 2>&1)
-  if echo "$out" | grep -q "^VIOLATION\|^CHECKER"; then
-     echo "$p FIRES: $(echo "$out" | grep -E '^(VIOLATED|UNDECIDED|CHECKER)' | head -3 | cut -c1-220)"
-  fi
-done
-git -C /repo checkout -- . && git -C /repo status --short | head -3
+GOTOOLCHAIN=local GOWORK=off ./bin/xcheck -prop all -repo $scratch/src -verif $scratch/verif 2>&1 | grep -E '^(VIOLATED|UNDECIDED|CHECKER)' | cut -c1-240 | sed -E 's/^(VIOLATED|UNDECIDED) (C[0-9]+)/\2 FIRES: \1 \2/' | sed "s#$scratch/src/##g"
+rm -rf $scratch
